@@ -207,6 +207,40 @@ type XZCfg struct {
 	// PreUsed: instead of Verify, a writer is created from the Pre configuration and used, and the
 	// configuration is copied back from that writer (Writer embeds WriterConfig) before it is changed
 	PreUsed bool `json:",omitempty"`
+	// Scribble: right after the constructor has returned, the caller overwrites every field of its
+	// configuration variable, including the Properties value behind the pointer, and creates and
+	// uses a second, unrelated writer from it
+	Scribble bool `json:",omitempty"`
+}
+
+// open creates the writer the way the case's configuration history prescribes.
+func (c XZCfg) open(sink io.Writer) (*xz.Writer, error) {
+	cfg := c.build()
+	w, err := cfg.NewWriter(sink)
+	if c.Scribble {
+		if cfg.Properties != nil {
+			if *cfg.Properties == (lzma.Properties{}) {
+				*cfg.Properties = lzma.Properties{LC: 1, LP: 1, PB: 1}
+			} else {
+				*cfg.Properties = lzma.Properties{}
+			}
+		} else {
+			cfg.Properties = &lzma.Properties{LC: 0, LP: 2, PB: 0}
+		}
+		cfg.DictCap, cfg.BufSize, cfg.Matcher = 5000, 300, 1-cfg.Matcher
+		cfg.BlockSize, cfg.NoCheckSum = 77, false
+		if cfg.CheckSum == xz.SHA256 {
+			cfg.CheckSum = xz.CRC32
+		} else {
+			cfg.CheckSum = xz.SHA256
+		}
+		var other sinkBuf
+		if w2, e2 := cfg.NewWriter(&other); e2 == nil {
+			w2.Write(bytes.Repeat([]byte("another writer created from the same configuration variable. "), 4))
+			w2.Close()
+		}
+	}
+	return w, err
 }
 
 // build returns the xz.WriterConfig the way the case's configuration history produces it.
